@@ -42,6 +42,7 @@ from pycardano.serialization import (
     default_encoder,
     limit_primitive_type,
     list_hook,
+    loads,
 )
 from pycardano.types import typechecked
 from pycardano.witness import TransactionWitnessSet
@@ -365,7 +366,7 @@ class _DatumOption(ArrayCBORSerializable):
             return _DatumOption(DatumHash(values[1]))
         else:
             assert isinstance(values[1], CBORTag)
-            v = cbor2.loads(values[1].value)
+            v = loads(values[1].value)
             if isinstance(v, CBORTag):
                 return _DatumOption(RawPlutusData.from_primitive(v))
             else:
@@ -384,7 +385,7 @@ class _ScriptRef(CBORSerializable):
         cls: Type[_ScriptRef], value: List[Primitive], type_args: Optional[tuple] = None
     ) -> _ScriptRef:
         assert isinstance(value, CBORTag)
-        return cls(_Script.from_primitive(cbor2.loads(value.value)))
+        return cls(_Script.from_primitive(loads(value.value)))
 
 
 @dataclass(repr=False)
